@@ -90,7 +90,7 @@ SLICE_DISP_RULE = ('episodes = scenario programs run under the controlled schedu
 
 CONC = {
     'C02': dict(module='Properties.C02', file='Properties/C02.v', slices=['disp'],
-                families=['saturate', 'lifecycle', 'burst', 'pool', 'multiq', 'staleloop'],
+                families=['saturate', 'lifecycle', 'burst', 'pool', 'multiq', 'staleloop', 'tuneshrink'],
                 quick_episodes=250, thorough_episodes=3000,
                 native=dict(scenarios=['cpus'], rounds=1, thorough_rounds=1),
                 rule=SLICE_DISP_RULE + '; native mode: a concurrency value below 1 (configured, and set by TunePool) with GOMAXPROCS raised above the number of CPUs; family staleloop: a directed schedule that holds the event loop right before its reservation across a Restart / Stop+Restart / Pause+Resume while its successor fills the limit',
@@ -109,7 +109,7 @@ CONC = {
                 rule=SLICE_DISP_RULE, trusted_base=TB_CONC,
                 assumptions=['"all processed, in queue order, after Resume / Restart" combines C03 (progress) and C04 (order) with C09_status_store_keeps_queues']),
     'C01': dict(module='Properties.C01', file='Properties/C01.v', slices=['job', 'wake', 'pool'],
-                families=['burst', 'lifecycle', 'cancel', 'batch', 'saturate', 'persist', 'recover', 'dist', 'multiq', 'pool', 'order'],
+                families=['burst', 'lifecycle', 'cancel', 'batch', 'saturate', 'persist', 'recover', 'dist', 'multiq', 'pool', 'order', 'tuneshrink'],
                 quick_episodes=150, thorough_episodes=2000, crash_props=['C03'],
                 native=dict(scenarios=['bigburst'], rounds=1, thorough_rounds=1),
                 diffs=[QUEUES_DIFF, LLIST_DIFF], diff_footprint=['E', 'D', 'V', 'S', 'PV', 'H+', 'H-', 'HV', 'HPV', 'LL+', 'LLPF', 'LLPB', 'LLR', 'LLLEN', 'LLS', 'validator:'],
@@ -133,8 +133,8 @@ CONC = {
                              'every call of the worker function returns (the property\'s own hypothesis)',
                              'distributed queues: the adapter delivers an "enqueued" notification per accepted item (adapter contract; family dist monitors the drain)',
                              '"no job left Processing without a goroutine" (a payload sent to a pool node has a live server): monitored (never-ran / stuck-goroutine), rests on the idle list\'s Remove result being the ownership transfer']),
-    'C05': dict(module='Properties.C05', file='Properties/C05.v', slices=['job', 'wake'],
-                families=['burst', 'lifecycle', 'cancel', 'batch', 'readers'],
+    'C05': dict(module='Properties.C05', file='Properties/C05.v', slices=['job', 'wake', 'pool'],
+                families=['burst', 'lifecycle', 'cancel', 'batch', 'readers', 'tuneshrink'],
                 quick_episodes=250, thorough_episodes=3000,
                 native=dict(scenarios=['bigbatch'], rounds=1, thorough_rounds=1),
                 rule=SLICE_JOB_RULE + '; native mode: a batch of more than 1024 items whose caller Waits before reading the stream', trusted_base=TB_CONC,
@@ -143,7 +143,7 @@ CONC = {
     'C07': dict(module='Properties.C07', file='Properties/C07.v', slices=['resp', 'job'],
                 families=['burst', 'batch', 'cancel', 'lifecycle', 'readers', 'persist'],
                 quick_episodes=300, thorough_episodes=4000,
-                native=dict(scenarios=['outcomes'], rounds=1, thorough_rounds=1),
+                native=dict(scenarios=['outcomes', 'bigbatch'], rounds=1, thorough_rounds=1),
                 rule=SLICE_JOB_RULE + '; native mode: 700 jobs with value / error / panic(int) / panic(struct) / panic([]byte) outcomes on error, result and plain workers at concurrency 4..6 under real parallelism, every handle read twice; per single error / result job the channel operations on its response are projected onto coq/SliceResp.v (send, close, receives with payload digests) and replayed; '
                      'outcomes (value / error / panic) are assigned at random per job, all three worker kinds, concurrency 1..4; every Result() / Err() return and every batch stream element is compared with a pure function '
                      'of the job\'s data, Metrics.Failed / Successful with the outcome counts',
@@ -204,7 +204,7 @@ CONC = {
             'ids are valid UTF-8 (otherwise C12_arbitrary_id_bytes: each malformed byte comes back as U+FFFD)',
             'job status is one of the five constants (Status() "Unknown" is unreachable)',
             'system level (event loop continues after a decode error, order of the jobs behind a bad entry, acknowledgement): controlled-scheduler family persist']),
-    'C13': dict(module='Properties.C13', file='Properties/C13.v', slices=['job', 'wake'],
+    'C13': dict(module='Properties.C13', file='Properties/C13.v', slices=['job', 'wake', 'pool'],
                 families=['dist', 'recover', 'multiq', 'bindwindow'],
                 quick_episodes=500, thorough_episodes=6000,
                 rule=SLICE_JOB_RULE + '; family dist: 1..3 consumers with concurrency 1..3 on one recording adapter (plain / priority), producers that are not consumers, binding before or after '
@@ -226,7 +226,7 @@ CONC = {
                              'after the user\'s context is cancelled every state decays to Stopped (a Restart derives its context from the cancelled one)',
                              '"Running means able to process" is checked by a probe job in every episode (and rests on the progress property C03)']),
     'C17': dict(module='Properties.C17', file='Properties/C17.v', slices=['batch'],
-                families=['burst', 'lifecycle', 'saturate', 'multiq', 'persist', 'cancel', 'batch', 'dist'],
+                families=['burst', 'lifecycle', 'saturate', 'multiq', 'persist', 'cancel', 'batch', 'dist', 'lenwindow'],
                 quick_episodes=200, thorough_episodes=2500,
                 diffs=[QUEUES_DIFF, MANAGER_DIFF], diff_footprint=['L', 'HL', 'MLEN', 'E', 'D', 'H+', 'H-', 'PV', 'HPV', 'validator:'],
                 diff_oracles=['fifo.len', 'heap.len', 'mgr.len'],
@@ -261,7 +261,7 @@ CONC = {
                              'locations handed over rather than locked (job.ackId, job.queue; anything touched only by its creator before publication) are judged by happens-before only',
                              'fields not on the watch list, the user\'s payload values, and memory of the Go runtime / standard library are outside the instrumented check (native mode covers them on the schedules the OS produces)']),
     'C18': dict(module='Properties.C18', file='Properties/C18.v', slices=['pool', 'disp'],
-                families=['pool', 'lifecycle', 'lifeseq', 'burst', 'saturate'],
+                families=['pool', 'lifecycle', 'lifeseq', 'burst', 'saturate', 'tuneshrink'],
                 quick_episodes=300, thorough_episodes=4000,
                 diffs=[LLIST_DIFF], diff_footprint=['LL+', 'LLPF', 'LLPB', 'LLR', 'LLLEN', 'LLS', 'validator:'], diff_oracles=['llist.'],
                 rule='records of the idle-list differential test (internal/linkedlist against coq/LList.v: PushNode, PopBack, PopFront, Remove of members and of nodes that have left the list, Len, NodeSlice); episodes = scenario programs run under the controlled scheduler on the instrumented library (see C01); per pool node the log is projected onto coq/SlicePool.v '
